@@ -314,7 +314,7 @@ def _part_c2(sh, tier, res):
 
 
 # ------------------------------------------------------------------ (d)
-D_TEXTS = ["", "a", "ab", "あ", "a\nb", "\n", "あ\nb", "é"]
+D_TEXTS = ["", "a", "ab", "あ", "a\nb", "\n", "あ\nb", "é", "a\x0cb\nc", "a\r\nb", "\u2028\n"]  # the last three: line boundaries of str.splitlines that are not "\\n"
 
 
 def _styles():
